@@ -51,4 +51,5 @@ func runC07(r *oblig.Report) {
 	r.Rule("C07.9", "path-enumeration", "an extension's relations are adopted wholesale only after the base type itself was found to have none", 1)
 	e5path.LiveAdoption(c.P, r, "C07.9")
 	e5path.ModuleLookupShape(c.P, r, "C07.7")
+	noPackageState(c.P, r, c.Reach(c.Entries("transformer.TransformModuleFilesToModel", "utils.GetModuleForObjectTypeRelation")))
 }
